@@ -152,6 +152,9 @@ def run(prog, rep):
     rep.rule('R15.7', 'fractions of a second: ParseSecondFractions executed over (digit count 1..10) x (boundary values with that many digits): '
                       'd digits with value v are stored as v * 10^-d s in target periods; more than nine digits are refused', floor=10)
     check_fraction_scale(prog, rep)
+    rep.rule('R15.8', 'text -> tm: executed over the boundary years of int and int64 - a year inside the int range is stored unchanged in tm_year, '
+                      'any other year ends in std::out_of_range, never in a wrapped tm_year', floor=1)
+    check_tm_year(prog, rep)
 
 
 # ------------------------------------------------------------------------------------------------ R15.2 SafeAddDuration (linear)
@@ -675,3 +678,67 @@ def check_fraction_scale(prog, rep):
                 rep.finding('R15.7', site, f.loc(), 'ParseSecondFractions (period 1/%d s): %s' % (den, bad), {'instantiation': f.id}, func=f.id)
             else:
                 rep.ok('R15.7', site, sample={'period_den': den, 'digits': d, 'values': vals} if d in (1, 7) else None)
+
+
+# ------------------------------------------------------------------------------------------------ R15.8 parsed year -> tm_year
+class TmModel(Model):
+    def __init__(self, year):
+        self.year = year
+
+    def initial_store(self, it, key):
+        return TOP
+
+    def construct(self, it, fr, n, depth):
+        vals = [it.ev(fr, a, depth) for a in n.get('c', ())]
+        return vals[0] if len(vals) == 1 else TOP
+
+    def primitive(self, it, fr, n, callee, depth):
+        obj, args = it.call_args(fr, n)
+        if callee['n'] == 'ParseIsoUtc':
+            st = Struct()
+            st.fields.update({'Year': self.year, 'Month': 1, 'Day': 1, 'Hour': 0, 'Min': 0, 'Sec': 0})
+            return st
+        if callee.get('repo'):
+            return NotImplemented
+        for a in args:
+            it.ev(fr, a, depth)
+        return TOP
+
+
+def check_tm_year(prog, rep):
+    """To(text, tm&): the parsed year is a 64-bit value, tm_year an int. Executed over the boundary years of both types: inside the int range the
+    year is stored unchanged, outside the function throws std::out_of_range - it never returns with a wrapped year."""
+    fs = sorted((f for f in prog.funcs.values() if f.q == 'BitSerializer::Convert::Detail::To' and f.body is not None and len(f.params) == 2
+                 and f.type(f.params[1]).replace('struct ', '').strip() in ('tm &', 'std::tm &')), key=lambda g: g.id)
+    if not fs:
+        raise AnalysisBroken('anchor vanished: To(string_view, tm&)')
+    years = [0, 1970, -1, 2147483647, 2147483648, -2147483648, -2147483649, 4294967296 + 2024, -4294967296 + 2024, (1 << 63) - 1, -(1 << 63)]
+    for f in fs:
+        rep.touch(f)
+        bad = None
+        for y in years:
+            it = Interp(prog, TmModel(y), max_depth=2, max_paths=50)
+
+            def init(it_, fr):
+                fr.env[f.params[0]['d']] = Sym('TEXT')
+                fr.alias[f.params[1]['d']] = 'out'
+            for p in it.run(f, init):
+                inside = -2147483648 <= y <= 2147483647
+                if p.outcome[0] == 'THROW':
+                    if inside:
+                        bad = 'year %d fits tm_year but the function throws %s' % (y, p.outcome[1])
+                    elif str(p.outcome[1]) != 'std::out_of_range':
+                        bad = 'year %d is reported with %s instead of std::out_of_range' % (y, p.outcome[1])
+                else:
+                    got = p.store.get('out.tm_year', TOP)
+                    if not inside:
+                        bad = 'year %d does not fit tm_year (int) but the function returns, tm_year = %s' % (y, got if isinstance(got, int) else '?')
+                    elif got != y:
+                        bad = 'year %d is stored as tm_year = %s' % (y, got if isinstance(got, int) else '?')
+            if bad:
+                break
+        site = 'To(text, tm)|' + f.sym.get('targs', '')[:40]
+        if bad:
+            rep.finding('R15.8', 'To(text, tm)|year range', f.loc(), 'To(text, tm&): ' + bad, {'instantiation': f.id}, func=f.id)
+        else:
+            rep.ok('R15.8', site, sample={'years': years})
